@@ -19,7 +19,10 @@ def viewOfJson (j : Json) : View :=
       | .ok (.arr a) => some (a.toList.filterMap (fun x => match x with | .str s => some s | _ => none))
       | _ => none,
     checkLabels := getBool j "check_labels" true,
-    expectedRows := getNat j "expected_rows" }
+    expectedRows := getNat j "expected_rows",
+    termWidths := match j.getObjVal? "widths" with
+      | .ok (.arr a) => some (a.toList.filterMap (fun x => x.getNat?.toOption))
+      | _ => none }
 
 def handle (op : String) (j : Json) : Option Json :=
   match op with
@@ -27,7 +30,9 @@ def handle (op : String) (j : Json) : Option Json :=
     let views := (getArr j "views").map viewOfJson
     some (Json.mkObj [("holds", Json.arr (views.map (fun v => Json.bool (holds v))).toArray),
                       ("slices_ok", Json.arr (views.map (fun v =>
-                          Json.bool (slicesOk v.slices v.termNames v.ncols))).toArray)])
+                          Json.bool (slicesOk v.slices v.termNames v.ncols))).toArray),
+                      ("widths_ok", Json.arr (views.map (fun v =>
+                          Json.bool (widthsOk v.slices v.termWidths))).toArray)])
   | _ => none
 
 end FormulaeModel.Driver.C17
